@@ -98,6 +98,9 @@ func Discharge(o *Obligation, scratch string, timeoutS int, only string) {
 	if o.Decided != "" {
 		// decided at generation time by a syntactic / type-directed rule (no solver query)
 		o.Result, o.Backend = o.Decided, "ownership-rule"
+		if o.Kind == "recovers" {
+			o.Backend = "recover-rule"
+		}
 		return
 	}
 	base := filepath.Join(scratch, sanitize(o.Name))
